@@ -61,7 +61,7 @@ type inst struct {
 }
 
 type stats struct {
-	Files, Probes, GoStmts, MapRanges, MapRangesSkipped, AccessProbes, ImportSwaps, ChanOps, ChanOpsSkipped, StateVars, NoteKeys int
+	Files, Probes, GoStmts, MapRanges, MapRangesSkipped, AccessProbes, ImportSwaps, ChanOps, ChanOpsSkipped, StateVars, NoteKeys, MapProbes int
 	Skipped                                                                        []string
 }
 
@@ -439,6 +439,7 @@ func (in *inst) list(list []ast.Stmt, force bool, pos token.Pos) []ast.Stmt {
 	for _, s := range list {
 		out = append(out, in.probe(s.Pos()))
 		out = append(out, in.noteKeys(s)...)
+		out = append(out, in.mapProbes(s)...)
 		out = append(out, in.accessProbes(s)...)
 		out = append(out, in.rewriteStmt(s))
 	}
@@ -479,6 +480,119 @@ func (in *inst) noteKeys(s ast.Stmt) []ast.Stmt {
 		out = append(out, &ast.ExprStmt{X: &ast.CallExpr{Fun: sel("simrt", "NoteKey"), Args: []ast.Expr{ix.Index}}})
 	}
 	return out
+}
+
+// mapProbes: simrt.MapAccess(m, write, site) for every map the statement indexes,
+// stores into, deletes from or ranges over (not descending into nested statement
+// lists and function literals, which are handled on their own).
+func (in *inst) mapProbes(s ast.Stmt) []ast.Stmt {
+	type acc struct {
+		m     ast.Expr
+		write bool
+	}
+	var accs []acc
+	isMap := func(e ast.Expr) bool {
+		tv, ok := in.info.Types[e]
+		if !ok || tv.Type == nil {
+			return false
+		}
+		_, ok = tv.Type.Underlying().(*types.Map)
+		return ok
+	}
+	writes := map[*ast.IndexExpr]bool{}
+	var visit func(n ast.Node) bool
+	visit = func(n ast.Node) bool {
+		switch x := n.(type) {
+		case nil:
+			return false
+		case *ast.FuncLit:
+			return false
+		case *ast.BlockStmt:
+			if n == ast.Node(s) {
+				return false
+			}
+			return in.swBody[x]
+		case *ast.CaseClause:
+			for _, e := range x.List {
+				ast.Inspect(e, visit)
+			}
+			return false
+		case *ast.CommClause:
+			return false
+		case *ast.AssignStmt:
+			for _, l := range x.Lhs {
+				if ix, ok := l.(*ast.IndexExpr); ok && isMap(ix.X) {
+					writes[ix] = true
+				}
+			}
+		case *ast.IncDecStmt:
+			if ix, ok := x.X.(*ast.IndexExpr); ok && isMap(ix.X) {
+				writes[ix] = true
+			}
+		case *ast.RangeStmt:
+			if isMap(x.X) && sideEffectFree(x.X) {
+				accs = append(accs, acc{x.X, false})
+			}
+			// the body is a nested list; key/value/X are visited below
+		case *ast.CallExpr:
+			if id, ok := x.Fun.(*ast.Ident); ok && id.Name == "delete" && len(x.Args) == 2 {
+				if _, isB := in.info.Uses[id].(*types.Builtin); isB && isMap(x.Args[0]) && sideEffectFree(x.Args[0]) {
+					accs = append(accs, acc{x.Args[0], true})
+				}
+			}
+		case *ast.IndexExpr:
+			if isMap(x.X) && sideEffectFree(x.X) {
+				accs = append(accs, acc{x.X, writes[x]})
+			}
+		}
+		return true
+	}
+	switch x := s.(type) {
+	case *ast.BlockStmt:
+		return nil
+	case *ast.LabeledStmt:
+		ast.Inspect(x.Stmt, visit)
+	default:
+		ast.Inspect(s, visit)
+	}
+	if len(accs) == 0 {
+		return nil
+	}
+	var out []ast.Stmt
+	seen := map[string]int{}
+	for _, a := range accs {
+		key := types.ExprString(a.m)
+		if i, ok := seen[key]; ok {
+			if a.write {
+				// upgrade the earlier probe of the same map to a write
+				out[i].(*ast.ExprStmt).X.(*ast.CallExpr).Args[1] = ast.NewIdent("true")
+			}
+			continue
+		}
+		seen[key] = len(out)
+		w := "false"
+		if a.write {
+			w = "true"
+		}
+		in.stats.MapProbes++
+		out = append(out, &ast.ExprStmt{X: &ast.CallExpr{Fun: sel("simrt", "MapAccess"), Args: []ast.Expr{
+			cloneExpr(a.m), ast.NewIdent(w), &ast.BasicLit{Kind: token.INT, Value: strconv.Itoa(in.site(s.Pos()))}}}})
+	}
+	return out
+}
+
+func cloneExpr(e ast.Expr) ast.Expr {
+	switch x := e.(type) {
+	case *ast.Ident:
+		return ast.NewIdent(x.Name)
+	case *ast.SelectorExpr:
+		return &ast.SelectorExpr{X: cloneExpr(x.X), Sel: ast.NewIdent(x.Sel.Name)}
+	case *ast.ParenExpr:
+		return &ast.ParenExpr{X: cloneExpr(x.X)}
+	case *ast.StarExpr:
+		return &ast.StarExpr{X: cloneExpr(x.X)}
+	}
+	return e
 }
 
 func sideEffectFree(e ast.Expr) bool {
